@@ -56,6 +56,7 @@ struct M<'a, K, const D: usize> {
     kname: &'static str,
     label: String,
     alphabet: Vec<[f64; D]>,
+    seed_pts: Vec<[f64; D]>,
     probes: Vec<[f64; D]>,
     _k: std::marker::PhantomData<K>,
 }
@@ -119,7 +120,7 @@ where
         let ms = t0.elapsed().as_millis() as u64;
         self.cn.slowest_ms.fetch_max(ms, Ordering::Relaxed);
         self.rep.outcome(&format!("{}:{}", opk(op), out.class()));
-        let replay = || json!({"D": D, "kernel": self.kname, "family": self.label, "alphabet": self.alphabet.iter().map(|p| p.to_vec()).collect::<Vec<_>>(), "history": hist, "op": op});
+        let replay = || json!({"D": D, "kernel": self.kname, "family": self.label, "alphabet": self.alphabet.iter().map(|p| p.to_vec()).collect::<Vec<_>>(), "seed_points": self.seed_pts.iter().map(|p| p.to_vec()).collect::<Vec<_>>(), "history": hist, "op": op});
         let cclass = match op {
             Op::InsertAt { c, .. } | Op::K1Insert { c, .. } => coord_class(c),
             _ => "-",
@@ -169,7 +170,7 @@ where
     K: Kernel<D, Scalar = f64> + Sync + Send,
     DtI<K, D>: Send + Sync,
 {
-    let m = M::<K, D> { rep, cn, kname, label: label.to_string(), alphabet, probes: probes_for::<D>(), _k: std::marker::PhantomData };
+    let m = M::<K, D> { rep, seed_pts: seed_pts.to_vec(), cn, kname, label: label.to_string(), alphabet, probes: probes_for::<D>(), _k: std::marker::PhantomData };
     let base: DtI<K, D> = if seed_pts.is_empty() {
         DelaunayTriangulation::with_empty_kernel(K::default())
     } else {
@@ -252,6 +253,9 @@ fn predicates<const D: usize>(rep: &Report, cn: &Cn) {
 
 fn main() {
     let args = parse_args();
+    if let Some(p) = &args.replay {
+        std::process::exit(vcore::replay::generic(p));
+    }
     silence_panics();
     let rep = Report::new("C19", &args);
     let thorough = args.tier == Tier::Thorough;
